@@ -359,7 +359,7 @@ prop(
     technique="exhaustive sweep of codes and signals + model-based property testing of call histories on the virtual-time engine (rapidcheck tape)",
     rule=("sweep index -> exit code 0..255 / terminating signal; tape -> time of the ending, SIGTERM behaviour, deadline, operations with gaps and timeouts. Non-trivial: a wait/stop/terminate/kill issued after a "
           "status was already returned, or an ending other than exit(0). Distinct: hash of ending and per-operation (kind, state) sequence."),
-    essential=dict(quick=["sweep-exit-code", "sweep-signal", "call-after-status", "nonzero-status", "ended-by-own-signal", "ended-by-library-signal"]),
+    essential=dict(quick=["sweep-exit-code", "sweep-signal", "call-after-status", "nonzero-status", "ended-by-own-signal", "ended-by-library-signal", "interrupted-call"]),
     exhaustive=dict(quick=True, thorough=True),
     exhaustive_scope="all 256 exit codes and all 23 terminating signals (endings); histories are sampled",
     assumptions=["an unbounded wait for a child that never ends is replaced by a bounded one (C07/C15 cover unbounded waits)", "stop actions are in range here (out-of-range is C07/C14)"],
@@ -438,7 +438,7 @@ prop(
     technique="property-based testing (rapidcheck tape) with a pattern round-trip oracle on the virtual-time engine and on the real clock",
     rule=("tape -> mode flags and the step list (V) or stream sizes / child chunk size / drain-or-loop / echo (R). Non-trivial: a stream carried more than 65 536 bytes, or a zero-size buffer was used, or stdout "
           "and stderr were both piped and both written, or start-up input was non-empty. Distinct: hash of the executed step log (V) or of the sizes (R)."),
-    essential=dict(quick=["engine-V", "engine-R", "stream-above-64KiB", "zero-size-buffer", "stdout-and-stderr-interleaved", "startup-input", "stderr-to-stdout", "blocking", "nonblocking", "via-drain"]),
+    essential=dict(quick=["engine-V", "engine-R", "stream-above-64KiB", "zero-size-buffer", "stdout-and-stderr-interleaved", "startup-input", "stderr-to-stdout", "blocking", "nonblocking", "via-drain", "interrupted-read-or-write"]),
     assumptions=["SIGPIPE ignored in the parent", "with stderr redirected to stdout child writes are kept <= 4096 bytes (atomic) so that script order is pipe order"],
 )
 
